@@ -337,6 +337,12 @@ def destructObject (rh : HookFn) (w : W) (o : Oid) : W :=
   | some _ => removeInteractive rh w o true
   | none => w
 
+/-- the registry knows the object (it was created and registered) -/
+def objExists (w : W) : Oid → Bool
+  | .master => false                 -- never a target
+  | .user k => 1 ≤ k && k ≤ w.nUser
+  | .obj k => w.objList.contains k
+
 def insertCallOut (l : List CallOut) (c : CallOut) : List CallOut :=
   match l with
   | [] => [c]
@@ -358,7 +364,7 @@ def runOps (rh : HookFn) (self : Oid) : List Op → W → R
       runOps rh self rest { w with ctxDepth := w.ctxDepth - 1 }
     | .dest t =>
       let w := emit w (.xDest self t)
-      let w := destructObject rh w t
+      let w := if objExists w t then destructObject rh w t else w     -- LPC: `if (o) destruct (o)`
       if w.dead self then (w, false) else runOps rh self rest w
     | .destMe =>
       let w := emit w (.xDest self self)
@@ -559,7 +565,7 @@ def processUserCommand (rh : HookFn) (w : W) : W × Bool × Bool :=
       if hasPI && w.inter cg ≠ some id then (w, true, false) else      -- VALIDATE_IP
       -- process_command -> user_parser -> the catch-all verb
       let (w, raised) :=
-        if cg = .master then (w, false)           -- the master has no commands: notify_fail
+        if cg = .master then (w, false)           -- user_parser(): no O_ENABLE_COMMANDS, nothing happens
         else if w.dead cg then (w, false) else
           let w := emit w (.tCmd cg line)
           let (w, raised) := rh w cg (.cmd line)
@@ -568,8 +574,8 @@ def processUserCommand (rh : HookFn) (w : W) : W × Bool × Bool :=
       if raised then (w, true, true) else
       if w.inter cg ≠ some id then (w, true, false) else               -- VALIDATE_IP
       let w := useConn w id                       -- print_prompt (ip)
-      let w := if cg = .master then addOut w cg "What?|" else w
-      (addOut w cg ">_", true, false)
+      -- tell_object (ip->ob, prompt): the master is not a user object, nothing reaches the socket
+      (if cg = .master then w else addOut w cg ">_", true, false)
 
 /-- `for (i = 0; process_user_command () && i < connected_users; i++);` -/
 def commandLoop (rh : HookFn) : Nat → W → R
@@ -670,7 +676,7 @@ def applyAction (w : W) : Action → W × List IoEv
     match connOfClient w c with
     | some _ => (w, [.eof c])
     | none => (w, [])
-  | .cin text => (w, [.console text])
+  | .cin text => if w.mode = .console then (w, [.console text]) else (w, [])   -- no console queue in network mode
   | .idle => (w, [])
 
 def applyActions : List Action → W → W × List IoEv
@@ -704,12 +710,13 @@ def cycle (S : Scripts) (rh : HookFn) (n : Nat) (acts : List Action) (w : W) : W
     if raised then (recover w, false) else (w, true)
   else (w, true)
 
-/-- backend() up to the loop: save_context, recovery point, initial tick, console user (first pass only) -/
+/-- backend() up to the loop: save_context, recovery point, then the start-up steps - initial tick, console user -
+    each exactly once even when the previous one left through the recovery point (fix commits) -/
 def startup (S : Scripts) (rh : HookFn) (w : W) : W :=
   let w := emit w .start
   let w := { w with ctxDepth := 1 }
   let (w, raised) := callHeartBeat rh w
-  if raised then recover w else
+  let w := if raised then recover w else w
   if w.mode = .console then
     let (w, raised) := initConsoleUser S rh w
     if raised then recover w else w
